@@ -66,6 +66,11 @@ func (i *InputID) String() string {
 	)
 }
 
+// sortKey orders the handlers of one device independently of their discovery order
+func (d *DeviceInfo) sortKey() string {
+	return fmt.Sprintf("%s|%s|%s|%04x%04x%04x%04x", d.eventName, d.Name, d.Uniq, d.ID.Bus, d.ID.Vendor, d.ID.Product, d.ID.Version)
+}
+
 // Event returns event name, like "event0" for /dev/input/event0
 func (d *DeviceInfo) Event() string {
 	return d.eventName
